@@ -76,7 +76,4 @@ Definition ce_ok (x : ce_in) (o : ce_out) : bool :=
   | Err => own_failure g i fl || negb (dest_priced g st)
   | _ => false
   end.
-Definition ce_known (x : ce_in) : N :=
-  let '(g, fl, st, phase, i) := x in
-  if f18c_class g i st phase then 1%N else if f18d_class g i st phase then 2%N else 0%N.
-Definition ce_judge := judge ce_model ce_oeqb ce_ok ce_known.
+Definition ce_judge := judge ce_model ce_oeqb ce_ok (fun _ => 0%N).
